@@ -301,10 +301,25 @@ class I3EnergyPDF(
         log10_energy_binning = self.get_binning('log_energy')
         sin_dec_binning = self.get_binning('sin_dec')
 
+        data_log10_energy = tdm['log_energy']
+        data_sin_dec = tdm['sin_dec']
+
         log10_energy_idx = np.digitize(
-            tdm['log_energy'], log10_energy_binning.binedges) - 1
+            data_log10_energy, log10_energy_binning.binedges) - 1
         sin_dec_idx = np.digitize(
-            tdm['sin_dec'], sin_dec_binning.binedges) - 1
+            data_sin_dec, sin_dec_binning.binedges) - 1
+
+        # Values on the upper-most bin edge belong to the last bin. This is the
+        # convention of np.histogram2d, which filled the histogram, and of the
+        # assert_is_valid_for_trial_data method, which accepts such values.
+        log10_energy_idx = np.where(
+            data_log10_energy == log10_energy_binning.upper_edge,
+            log10_energy_binning.nbins - 1,
+            log10_energy_idx)
+        sin_dec_idx = np.where(
+            data_sin_dec == sin_dec_binning.upper_edge,
+            sin_dec_binning.nbins - 1,
+            sin_dec_idx)
 
         with TaskTimer(tl, 'Evaluating log10_energy-sin_dec histogram.'):
             pd = self._hist_log10_energy_sin_dec[
